@@ -55,6 +55,11 @@ def cases(tier, seed, phase):
     for eight in (True, False):
         for enc in (True, False):
             yield {'kind': 'smtp', 'lmtp': False, 'pipelining': True, 'nr': 2, 'dev': {}, 'body8bit': True, 'eightbit': eight, 'encoder': enc}
+    # a non-ASCII address and a server that does not offer SMTPUTF8 (or does)
+    for utf8 in (True, False):
+        for lm in (False, True):
+            for who in ('sender', 'rcpt'):
+                yield {'kind': 'smtp', 'lmtp': lm, 'pipelining': True, 'nr': 2, 'dev': {}, 'utf8addr': who, 'smtputf8': utf8}
     for cred in ('235', '535', '454'):
         yield {'kind': 'smtp', 'lmtp': False, 'pipelining': True, 'nr': 1, 'dev': {'auth': cred}, 'credentials': True}
     for tlsreq in ('454', '502', 'close'):
@@ -126,9 +131,10 @@ def run_attempt(relay, env, watchdog=4.0):
     return 'table:' + ','.join([c] * len(env.recipients)) if c == 'ok' else 'returned-error-object:' + c
 
 
-def make_env(nr, body8bit=False):
+def make_env(nr, body8bit=False, utf8addr=None):
     from slimta.envelope import Envelope
-    env = Envelope('sender@example.com', ['rcpt%d@example.com' % i for i in range(nr)])
+    env = Envelope('s\xe9nder@example.com' if utf8addr == 'sender' else 'sender@example.com',
+                   [('rcpt%d@ex\xe4mple.com' if (utf8addr == 'rcpt' and i == nr - 1) else 'rcpt%d@example.com') % i for i in range(nr)])
     body = b'test body\r\n' if not body8bit else 'h\xe9llo\r\n'.encode('utf-8')
     env.parse(b'From: sender@example.com\r\nContent-Type: text/plain; charset="utf-8"\r\nMIME-Version: 1.0\r\n\r\n' + body)
     return env
@@ -198,6 +204,8 @@ class Peer(object):
                         exts.append('PIPELINING')
                     if self.case.get('eightbit', True):
                         exts.append('8BITMIME')
+                    if self.case.get('smtputf8', False):
+                        exts.append('SMTPUTF8')
                     if self.case.get('credentials'):
                         exts.append('AUTH PLAIN')
                     lines = ['peer.example'] + exts
@@ -267,7 +275,8 @@ def model_smtp(case, model):
             'eod=' + oc('eod', '250'), 'eodper=' + eodper, 'rset=' + oc('rset', '250'), 'pipelining=%d' % case['pipelining'],
             'eightbit=%d' % case.get('eightbit', True), 'lmtp=%d' % case['lmtp'], 'tlsrequired=%d' % bool(case.get('tlsrequired')),
             'credentials=%d' % bool(case.get('credentials')), 'body8bit=%d' % bool(case.get('body8bit')),
-            'encoder=%d' % bool(case.get('encoder')), 'connect=' + case.get('connect', 'ok')]
+            'encoder=%d' % bool(case.get('encoder')), 'connect=' + case.get('connect', 'ok'),
+            'smtputf8=%d' % bool(case.get('smtputf8', False)), 'utf8addr=%d' % bool(case.get('utf8addr'))]
     return model.ask('relay smtp ' + ' '.join(args))
 
 
@@ -296,7 +305,7 @@ def run_smtp(case, model):
         kw['binary_encoder'] = encode_base64
     cls = StaticLmtpRelay if case['lmtp'] else StaticSmtpRelay
     relay = cls('peer.example', 25, **kw)
-    env = make_env(case['nr'], bool(case.get('body8bit')))
+    env = make_env(case['nr'], bool(case.get('body8bit')), case.get('utf8addr'))
     res = run_attempt(relay, env)
     for p, g in peers:
         g.kill(block=False)
@@ -336,7 +345,8 @@ def run_smtp(case, model):
             if rcpt_replies_seen and any(x[:1] == '4' for x in rc):
                 hits.append(hit('c11.4xx-recipient-failed-permanently.smtp', 'the whole message failed permanently although a recipient was refused only transiently',
                                 observed=res, expected=dev))
-            if not any(v[:1] == '5' for v in dev.values()) and not (case.get('body8bit') and not case.get('eightbit', True)):
+            if not any(v[:1] == '5' for v in dev.values()) and not (case.get('body8bit') and not case.get('eightbit', True)) \
+                    and not (case.get('utf8addr') and not case.get('smtputf8')):
                 hits.append(hit('c11.permanent-without-5xx.smtp', 'permanent failure although no 5xx was given', observed=res, expected=dev))
         elif res == 'raised:temp':
             decisive = [v for k, v in dev.items() if v[:1] == '5' and k in ('banner', 'mail', 'data', 'eod', 'auth')]
